@@ -258,12 +258,33 @@ def run_case(ctx, case) -> None:
                               f"(iteration counters {rm.iteration}/{twin.iteration}) (n={n}, limit={limit}, plus={plus})", c)
                 twin = None
         if twin_at == it:
-            with tempfile.TemporaryDirectory() as d:
-                rm.save(Path(d) / "rm")
-                twin = GameRegretMinimizer.load(Path(d) / "rm")
+            ckpt = tempfile.mkdtemp(prefix="vmon-c14-")
+            case["_ckpt"] = ckpt
+            rm.save(Path(ckpt) / "rm")
+            saved_state = (np.array(rm.cumulative_regret, copy=True), np.array(rm.cumulative_strategy, copy=True), rm.iteration)
+            case["_saved_state"] = saved_state
+            twin = GameRegretMinimizer.load(Path(ckpt) / "rm")
             ctx.count("save_load_twins")
             if twin.plus != rm.plus or twin.limit_of_revealed != rm.limit_of_revealed or twin.number_of_players != rm.number_of_players:
                 ctx.violation("loaded-minimizer-parameters-differ", "plus/limit/players not restored", {k: v for k, v in case.items() if not k.startswith("_")})
+    if case.get("_ckpt"):
+        # the checkpoint is used a SECOND time, after the first restored copy has been iterated: it must still hold the saved state
+        import shutil
+        try:
+            again = GameRegretMinimizer.load(Path(case["_ckpt"]) / "rm")
+            sr, ss, si = case["_saved_state"]
+            ctx.count("checkpoints_restored_twice")
+            if not (np.array_equal(np.array(again.cumulative_regret), sr) and np.array_equal(np.array(again.cumulative_strategy), ss)
+                    and again.iteration == si):
+                c = {k: v for k, v in case.items() if not k.startswith("_")}
+                ctx.violation("checkpoint-changed-by-continuing-a-restored-copy", f"restoring the same checkpoint a second time (after a "
+                              f"first restored copy ran further iterations) does not give the saved state (n={n}, limit={limit}, plus={plus})", c)
+        except Exception as exc:
+            c = {k: v for k, v in case.items() if not k.startswith("_")}
+            ctx.violation("iteration-raised", f"second load of the checkpoint raised {type(exc).__name__}: {exc}", c)
+        finally:
+            twin = None
+            shutil.rmtree(case["_ckpt"], ignore_errors=True)
     if ref is not None and ref.ambiguous:
         ctx.count("reference_sign_ambiguous_histories")
 
